@@ -14,3 +14,9 @@ func raceEnable()             { runtime.RaceEnable() }
 func raceReleaseMerge(p *int) { runtime.RaceReleaseMerge(unsafe.Pointer(p)) }
 func raceAcquire(p *int)      { runtime.RaceAcquire(unsafe.Pointer(p)) }
 func RaceErrors() int         { return runtime.RaceErrors() }
+
+// HarnessRelease / HarnessAcquire give harness stand-ins for user-supplied components (a Cache implementation) the
+// happens-before edge their real counterparts have through their own lock: everything done before a Release on p
+// happens before whatever follows a later Acquire on p.
+func HarnessRelease(p *int) { runtime.RaceReleaseMerge(unsafe.Pointer(p)) }
+func HarnessAcquire(p *int) { runtime.RaceAcquire(unsafe.Pointer(p)) }
